@@ -8,7 +8,9 @@ mkdir -p bin evidence
 build() { # $1 = output, rest = flags
   local out="$1"; shift
   local tmp="bin/.$(basename "$out").$$"
-  if ! go build "$@" -o "$tmp" ./cmd/vcheck 2> "bin/.build.$$.log"; then
+  local target=./cmd/vcheck
+  [ "$(basename "$out")" = stubgo ] && target=./cmd/stubgo
+  if ! go build "$@" -o "$tmp" $target 2> "bin/.build.$$.log"; then
     cat "bin/.build.$$.log"; rm -f "bin/.build.$$.log" "$tmp"
     echo "BUILD-FAILED: the harness does not compile against /repo's working tree"
     return 2
@@ -20,6 +22,7 @@ case "$1" in
   --setup)
     build bin/vcheck || exit 2
     build bin/vcheck.race -race || exit 2
+    build bin/stubgo || exit 2
     bin/vcheck list >/dev/null || exit 2
     echo "setup ok"; exit 0;;
   --replay)
@@ -29,6 +32,7 @@ esac
 id="$1"; tier="${2:-quick}"
 [ -n "$VERIF_TIER" ] && [ -z "$2" ] && tier="$VERIF_TIER"
 case "$id" in
-  C18|C19|C20) build bin/vcheck.race -race || exit 2; exec bin/vcheck.race run "$id" "$tier";;
+  C20) build bin/stubgo || exit 2; build bin/vcheck.race -race || exit 2; exec bin/vcheck.race run "$id" "$tier";;
+  C18|C19) build bin/vcheck.race -race || exit 2; exec bin/vcheck.race run "$id" "$tier";;
   *) build bin/vcheck || exit 2; exec bin/vcheck run "$id" "$tier";;
 esac
